@@ -88,6 +88,14 @@ def decorate(rng, d):
     for i in range(rng.randint(0, 2)):
         t = rng.choice(files)
         links.append((os.path.join(os.path.dirname(t), f"alias{i}_" + os.path.basename(t)), t))
+    # chains: a link whose target is itself a file link (link -> link -> file), in the same directory
+    file_links = [ln for ln, tg in links if tg in a["texts"]]
+    for i in range(rng.randint(0, 2)):
+        if file_links:
+            t = rng.choice(file_links)
+            nm = os.path.join(os.path.dirname(t), f"chain{i}_" + os.path.basename(t))
+            links.append((nm, t))
+            file_links.append(nm)
     # a link with a non-source name to a source, and a source-named link to a non-source
     if rng.random() < 0.4:
         t = rng.choice(files)
@@ -114,10 +122,20 @@ def decorate(rng, d):
             seen.add(ln)
             ll.append((ln, tg))
     links = ll
+    lmap = {ln: os.path.normpath(tg) for ln, tg in links}
+
+    def final(t):
+        t = os.path.normpath(t)
+        for _ in range(10):
+            if t not in lmap:
+                break
+            t = lmap[t]
+        return t
+
     flinks = {}
     for ln, tg in links:
         if os.path.basename(ln) != "plainlink":  # a command's file needs a source extension to be supported
-            flinks.setdefault(os.path.normpath(tg), []).append(ln)
+            flinks.setdefault(final(tg), []).append(ln)
     dlinks = [(ln, os.path.normpath(tg)) for ln, tg in links if os.path.normpath(tg) in real_dirs or tg == "../outside"]
 
     def alias(p):
